@@ -244,6 +244,7 @@ pub fn replay(machines: &[(&dyn Machine, &MachineSpec)], path: &str) -> Report {
                     o = m.init(m.raw(o));
                     format!("{o:#x}")
                 }
+                "storage_eq_rewrap" => format!("{:#x}", (m.init(m.raw(o)) == o) as u128),
                 "build" => {
                     let args: Vec<u128> = st.args.iter().map(|h| h.0).collect();
                     o = m.build(&args).expect("no builder adapter");
@@ -486,6 +487,200 @@ fn enum_one(m: &dyn EnumMachine, es: &EnumSpec, full_n: u32, rep: &mut Report, i
     let fam = rep.per_family.entry(fam_name).or_default();
     fam.fields += 1;
     fam.states += total as u64;
+    fam.transitions += rep.transitions - t0;
+    fam.violations += rep.violation_count - v0;
+}
+
+// ------------------------------------------------------------------------------------------------
+// C13: builder()...build() == fold of with_ from DEFAULT / ZERO
+
+pub fn builder(machines: &[(&dyn Machine, &MachineSpec)], full_w: u32, cap: u128, threads: usize) -> Report {
+    let start = Instant::now();
+    let mut rep = Report { mode: "builder".into(), exhaustive: true, ..Default::default() };
+    let next = std::sync::atomic::AtomicUsize::new(0);
+    let sel: Vec<_> = machines.iter().filter(|(_, ms)| ms.has_builder).collect();
+    let parts: Vec<Report> = std::thread::scope(|sc| {
+        let hs: Vec<_> = (0..threads.max(1))
+            .map(|_| {
+                sc.spawn(|| {
+                    let mut rep = Report::default();
+                    loop {
+                        let i = next.fetch_add(1, std::sync::atomic::Ordering::Relaxed);
+                        if i >= sel.len() {
+                            break;
+                        }
+                        builder_one(sel[i].0, sel[i].1, full_w, cap, &mut rep, i);
+                    }
+                    rep
+                })
+            })
+            .collect();
+        hs.into_iter().map(|h| h.join().unwrap()).collect()
+    });
+    for p in parts {
+        rep.machines += p.machines;
+        rep.fields += p.fields;
+        rep.states += p.states;
+        rep.transitions += p.transitions;
+        rep.compared += p.compared;
+        rep.distinct_outcomes += p.distinct_outcomes;
+        rep.violation_count += p.violation_count;
+        for v in p.violations {
+            if rep.violations.len() < 40 {
+                rep.violations.push(v);
+            }
+        }
+        for s in p.samples {
+            if rep.samples.len() < 6 {
+                rep.samples.push(s);
+            }
+        }
+        for n in p.notes {
+            rep.notes.push(n);
+        }
+        for (k, v) in p.per_family {
+            let e = rep.per_family.entry(k).or_default();
+            e.fields += v.fields;
+            e.transitions += v.transitions;
+            e.states += v.states;
+            e.violations += v.violations;
+        }
+    }
+    rep.wall_s = start.elapsed().as_secs_f64();
+    rep
+}
+
+fn builder_one(m: &dyn Machine, ms: &MachineSpec, full_w: u32, cap: u128, rep: &mut Report, i: usize) {
+    rep.machines += 1;
+    // one slot per writable (field, element), in declaration order
+    let mut slots: Vec<(usize, usize, Vec<u32>, Vec<u128>)> = Vec::new();
+    for (fi, f) in ms.fields.iter().enumerate() {
+        if !f.writable {
+            continue;
+        }
+        rep.fields += 1;
+        for idx in 0..f.arr.map_or(1, |a| a.0) {
+            slots.push((fi, idx, positions(f, idx), value_alpha(f, full_w)));
+        }
+    }
+    let t0 = rep.transitions;
+    let v0 = rep.violation_count;
+    let mut product: u128 = 1;
+    for s in &slots {
+        product = product.saturating_mul(s.3.len() as u128);
+    }
+    let mut tuples: Vec<Vec<u128>> = Vec::new();
+    let full = product <= cap;
+    if full {
+        let mut idxs = vec![0usize; slots.len()];
+        loop {
+            tuples.push(slots.iter().zip(&idxs).map(|(s, &j)| s.3[j]).collect());
+            let mut k = 0;
+            loop {
+                if k == slots.len() {
+                    break;
+                }
+                idxs[k] += 1;
+                if idxs[k] < slots[k].3.len() {
+                    break;
+                }
+                idxs[k] = 0;
+                k += 1;
+            }
+            if k == slots.len() {
+                break;
+            }
+        }
+    } else {
+        // one factor at a time over four backgrounds
+        for bg in 0..4usize {
+            for (si, s) in slots.iter().enumerate() {
+                for &v in &s.3 {
+                    let mut t: Vec<u128> = slots
+                        .iter()
+                        .enumerate()
+                        .map(|(j, o)| match bg {
+                            0 => o.3[0],
+                            1 => o.3[o.3.len() - 1],
+                            _ => o.3[(bg * 7 + j * 3) % o.3.len()],
+                        })
+                        .collect();
+                    t[si] = v;
+                    tuples.push(t);
+                }
+            }
+        }
+        rep.notes.push(format!("{}: argument product {} > cap {}: one-factor-at-a-time over 4 backgrounds ({} tuples)", ms.name, product, cap, tuples.len()));
+    }
+    let dflt = ms.default.map_or(0, |h| h.0);
+    let mut distinct = std::collections::HashSet::new();
+    for t in &tuples {
+        rep.states += 1;
+        // reference (ii): REG from the declared default
+        let mut e = dflt;
+        for (s, &v) in slots.iter().zip(t) {
+            e = ref_put(e, &s.2, v);
+        }
+        let obs = call(|| {
+            let b = m.build(t).expect("no builder adapter");
+            let rb = m.raw(b);
+            // reference (i): the statement itself on the implementation
+            let (zero, d) = m.consts();
+            let mut o = match d {
+                Some((dd, _, _)) => dd,
+                None => zero,
+            };
+            for (s, &v) in slots.iter().zip(t) {
+                o = m.with(o, s.0, s.1, v);
+            }
+            (rb, m.raw(o), b, o)
+        });
+        rep.transitions += 3 + slots.len() as u64;
+        rep.compared += 2;
+        let step = Step { op: "build".into(), f: 0, idx: 0, v: H(0), args: t.iter().map(|&x| H(x)).collect() };
+        match obs {
+            Ok((rb, rfold, b, o)) => {
+                if distinct.len() < 4096 {
+                    distinct.insert(rb);
+                }
+                if rb != e || rfold != e || b != o {
+                    rep.violation_count += 1;
+                    if rep.violations.len() < 40 {
+                        let what = if rb != e { "build_vs_reference" } else if rfold != e { "fold_vs_reference" } else { "build_vs_fold_storage" };
+                        let mut v = Violation::new(what, ms, None, vec![step], expect_value(e), format!("build {rb:#x}, fold of with_ {rfold:#x}"));
+                        v.spec = ms.clone();
+                        v.field_text = ms.fields.iter().map(|f| f.text.clone()).collect::<Vec<_>>().join(", ");
+                        rep.violations.push(v);
+                    }
+                }
+            }
+            Err(_) => {
+                rep.violation_count += 1;
+                if rep.violations.len() < 40 {
+                    let mut v = Violation::new("panic", ms, None, vec![step], expect_value(e), "Panicked".into());
+                    v.spec = ms.clone();
+                    v.field_text = ms.fields.iter().map(|f| f.text.clone()).collect::<Vec<_>>().join(", ");
+                    rep.violations.push(v);
+                }
+            }
+        }
+    }
+    rep.distinct_outcomes += distinct.len() as u64;
+    if rep.samples.len() < 6 && i % 41 == 0 && !tuples.is_empty() {
+        let t = &tuples[tuples.len() / 2];
+        let mut e = dflt;
+        for (s, &v) in slots.iter().zip(t) {
+            e = ref_put(e, &s.2, v);
+        }
+        rep.samples.push(serde_json::json!({
+            "decl": format!("{} {{ {} }}", ms.head, ms.fields.iter().map(|f| f.text.clone()).collect::<Vec<_>>().join(", ")),
+            "trace": format!("builder({}).build().raw_value()", t.iter().map(|x| format!("{x:#x}")).collect::<Vec<_>>().join(", ")),
+            "expected_and_observed": format!("{e:#x}"), "tuples": tuples.len(), "full_product": full,
+        }));
+    }
+    let fam = rep.per_family.entry(ms.family.clone()).or_default();
+    fam.fields += slots.len() as u64;
+    fam.states += tuples.len() as u64;
     fam.transitions += rep.transitions - t0;
     fam.violations += rep.violation_count - v0;
 }
